@@ -58,6 +58,8 @@ H("pn_decode_expand_total", ["C10", "C03"], "quick", "packet::pn_decode_expand_t
   ["1-byte", "2-byte", "3-byte", "4-byte"],
   ["PacketNumber::decode_len", "PacketNumber::decode", "PacketNumber::expand"],
   "every first-byte tag, every 4 wire bytes, every expected <= 2^62")
+H("packet_header_decode_bounds_native", ["C03", "C10"], "replay-only", "packet::header_decode_bounds_native",
+  [("first", "u8")], 4, [], ["PartialDecode::new", "ProtectedHeader::decode"], "native replay body of E2 query e2_header_decode_advance (loops over claimed token lengths and tails)")
 H("long_type_roundtrip", ["C10"], "quick", "packet::long_type_roundtrip", [("b", "u8")], 4,
   ["Initial", "Retry", "Handshake", "0-RTT"], ["LongHeaderType::from_byte", "From<LongHeaderType> for u8"],
   "every first byte with the long-header bit set")
